@@ -5,6 +5,7 @@ From Coq Require Import List NArith ZArith Bool Floats SpecFloat QArith.
 From LinfaVerif Require Export Common.Num Common.NdSum Common.Run Common.B32 Common.QF C03.Model.
 From LinfaVerif Require Import C03.Sigmoid.
 From LinfaVerif Require Export C03.CorrMat.
+From LinfaVerif Require Export C03.CorrR5.
 Import ListNotations.
 
 Definition o64 := B64_ops.
@@ -36,7 +37,9 @@ Inductive case :=
 | CEXT (id code : N)
 (* the array-level models of C03/MatModel.v (the objects of the T2 theorems) against the
    implementation's predict_inplace on a pre-filled target: see C03/CorrMat.v *)
-| CMAT (id : N) (m : mcase).
+| CMAT (id : N) (m : mcase)
+(* round 5: non-linear-kernel SVM predict_inplace (C03/ModelR5.v), run in C03/CorrR5.v *)
+| CR5 (id : N) (m : r5case).
 
 Definition rows_eqb (a b : list (list float)) : bool := list_eqb (list_eqb f64_biteq) a b.
 Definition lor_list (l : list N) : N := fold_left N.lor l 0%N.
@@ -240,6 +243,7 @@ Definition run_case (c : case) : verdict :=
   | CAFF id kind mean scale W b X out labs => (id, run_aff kind mean scale W b X out labs)
   | CEXT id code => (id, (code, 0%N))
   | CMAT id m => (id, (run_mcase m, 0%N))
+  | CR5 id m => (id, (run_r5case m, 0%N))
   end.
 
 Definition run_cases (cs : list case) : list N := report (map run_case cs).
